@@ -365,7 +365,7 @@ def compare(history, obs, steps, pristine, prop="C10"):
             if kind in COPY_MATTERS:
                 if m["copies"] != o["n_copies"]:
                     dis("number of deepcopy calls on (copies of) the input", detail="copy-count", model=m["copies"], impl=o["n_copies"])
-                mfp = sorted(set(FP_NAMES[x] for x in m["fp"]))
+                mfp = sorted(set(FP_NAMES[x] for x in m["fp"] if x[0] < 1000))
                 rfp = sorted(set(tuple(x) for x in o["copy_fp"]))
                 # a write that raised for a reason outside the model (a caption time no writer can print) stops half
                 # way through its assignments: footprints are compared when both exits agree
